@@ -305,12 +305,20 @@ def run(prog, rep):
     # here for the gap-capable records only)
     from .c02 import size_identity
     gap_units = {u.name for u in cd.units.values() if u.cls is not None and u.cls.get("_segments", "getter") is not None}
-    rep.attempt(size_identity, prog, cd, rep, with_consumed=False, only=gap_units)
+    # the blocks that hold such records: a block that drops a record without runs, or declares its size from its first record only,
+    # loses gaps just as well (the all-missing track vanishes; the last runs of a longer track are overwritten by the next block)
+    from ..layout import Sub, walk_terms as _wt
+    holders = {u.name for u in cd.units.values() if u.rterms is not None and any(isinstance(t, Sub) and t.cls is not None and t.cls.name in gap_units for t in _wt(u.rterms))}  # (the decoder names the record class)
+    rep.attempt(size_identity, prog, cd, rep, with_consumed=False, only=gap_units | holders)
     # .. and a gapped record is decoded from a STREAM of records: its decoder must consume, on every path (a record without runs
     # included), exactly the fields its writer emits, or every following record of the block is read from the wrong position
     from .c01 import report_unit
-    for u in [u for u in cd.units.values() if u.name in gap_units]:
+    from .c01 import attr_linkage
+    for u in [u for u in cd.units.values() if u.name in gap_units | holders]:
         rep.attempt(report_unit, rep, cd, u, rule="gap-record-symmetry")
+    # .. and what a holder decodes into its record list is the list it encodes (every record, the all-missing one included)
+    for u in [u for u in cd.units.values() if u.name in holders]:
+        rep.attempt(attr_linkage, rep, cd, u, rule="gap-record-symmetry")
     rep.attempt(gap_reader_accepts, prog, cd, rep, gap_units)
     rep.trusted += ["numpy contract: masked_invalid + clump_unmasked return the maximal runs of non-NaN entries as increasing, disjoint, non-adjacent slices"]
     rep.not_decided += ["the numpy contract itself over all 2^n masks", "tracks whose components disagree on where the NaNs are"]
